@@ -24,6 +24,30 @@ def draw(rng):
     return (cur, b_d, r_d, b_c, r_c, t_c), e
 
 
+def near_limit(p, rng):
+    """an energy a little above the virtual-cathode limit of beam p (where the fixed-point iteration needs many passes)"""
+    from ebisim.beams import ElectronBeam
+    b = ElectronBeam(*p)
+    def fin(e_):
+        # the documented iteration, replayed with the public formulas (independent of the loop under test)
+        new, old, it = 1.0, 0.0, 0
+        while (new - old) / new > 1e-6 and it < 5000:
+            ce = float(e_) + new
+            old = new; new = float(b.characteristic_potential(ce)) * (2 * np.log(float(b.herrmann_radius(ce)) / p[2]) - 1); it += 1
+            if not np.isfinite(new): return False
+        return bool(np.isfinite(new)) and it < 5000
+    hi = 2e5
+    if not fin(hi): return None
+    lo = 1.0
+    if fin(lo): return None
+    for _ in range(60):
+        mid = np.sqrt(lo * hi)
+        if fin(mid): hi = mid
+        else: lo = mid
+        if hi / lo < 1 + 1e-9: break
+    return float(hi * (1 + 10 ** rng.uniform(-4, -1.3)))
+
+
 def run(ctx):
     from ebisim.beams import ElectronBeam
     D = ctx.driver
@@ -32,6 +56,10 @@ def run(ctx):
     iters = {}
     for k in range(n):
         p, e = draw(rng)
+        if k % 5 == 2:
+            with np.errstate(all="ignore"):
+                e2 = near_limit(p, rng)
+            if e2 is not None and 500 <= e2 <= 2e5: e = e2; ctx.count("near_limit_cases")
         b = ElectronBeam(*p)
         if k % 4 == 3:   # reach the same parameters through the public `current` setter after a first evaluation
             b = ElectronBeam(p[0] * 2.5, *p[1:]); b.space_charge_correction(e, 0.0); b.current = p[0]
@@ -90,6 +118,10 @@ def stmt(p, e, rng):
             r_e = float(b.herrmann_radius(ce)); phi0 = float(b.characteristic_potential(ce))
             old = new; new = phi0 * (2 * np.log(r_e / r_d) - 1); it += 1
         r_e0 = float(b.herrmann_radius(e))
+        if not (np.isfinite(new) and np.isfinite(r_e) and it < 10000):
+            return out   # beyond the virtual-cathode limit: outside the property's domain
+        if abs(sc - new) > 1e-5 * abs(new):
+            add("fixed_point", f"on-axis value {sc!r} differs from the limit of the documented iteration {new!r} ({it} passes)")
         rs = np.sort(np.concatenate([[0.0, r_d], rng.uniform(0, r_d, 40), rng.uniform(0, min(1.5 * r_e, r_d), 20),
                                      r_e * (1 + np.array([-1e-9, 0, 1e-9])), r_e0 * (1 + np.array([-1e-9, 0, 1e-9])), [0.5 * (r_e + r_e0)]]))
         rs = rs[(rs >= 0) & (rs <= r_d)]
@@ -116,7 +148,7 @@ def stmt(p, e, rng):
     a1, a2 = float(b2.space_charge_correction(e, 0.0)), float(fresh.space_charge_correction(e, 0.0))
     if not (a1 == a2 or (np.isnan(a1) and np.isnan(a2))):
         add("current_setter", f"after beam.current = {cur*0.37!r} the on-axis correction is {a1!r}, a fresh beam with that current gives {a2!r}")
-    for r in (-1e-6, r_d * 1.001):
+    for r in (-1e-6, r_d * 1.001, float(np.nextafter(r_d, np.inf)), r_d * (1 + 1e-9), r_d + 5e-9, r_d * (1 + 8e-6), -float(np.nextafter(0, 1))):
         try:
             b.space_charge_correction(e, r); add("range_error", f"no ValueError for r={r}", r=r)
         except ValueError:
@@ -146,8 +178,12 @@ def search(ctx):
         inp = f.get("input") or {}
         if "p" in inp:
             V += stmt(tuple(inp["p"]), float(inp["E"]), rng)
-    for _ in range(60 if (ctx.thorough or ctx.failures) else 10):
+    for k in range(60 if (ctx.thorough or ctx.failures) else 10):
         p, e = draw(rng)
+        if k % 3 == 1:
+            with np.errstate(all="ignore"):
+                e2 = near_limit(p, rng)
+            if e2 is not None and 500 <= e2 <= 2e5: e = e2
         V += stmt(p, e, rng); ctx.count("search_cases")
         if len(V) > 10: break
     return V
